@@ -117,7 +117,10 @@ func (n *node[T]) addMethods(h T, pattern string, ms []types.Middleware[T], meth
 		if _, found := n.handlers[m]; found {
 			return fmt.Errorf("该请求方法 %s 已经存在", m)
 		}
+	}
 
+	// 所有的验证都在修改节点之前完成，出错时不会只添加了一部分请求方法。
+	for _, m := range methods {
 		if m == http.MethodGet {
 			n.handlers[http.MethodHead] = ApplyMiddleware(h, http.MethodHead, pattern, n.root.Name(), ms...)
 		}
